@@ -40,7 +40,9 @@ type Op struct {
 	Re    int    `json:"re,omitempty"`   // iter: number of complete re-iterations
 	Btw   int    `json:"btw,omitempty"`  // iter: 1 = read-only queries (tree unchanged) are run between the passes
 	In    int    `json:"in,omitempty"`   // iter: nested pass over the same sequence value started from inside a pass (-1 complete, n>0 stopped after n elements)
-	Off   int    `json:"off,omitempty"`  // arena: offset of the key argument inside the caller's buffer
+	Pull  int    `json:"pull,omitempty"` // iter: the pass is pulled (iter.Pull2) in alternation with a full scan of tree T2; the bits are the schedule
+	T2    int    `json:"t2,omitempty"`
+	Off   int    `json:"off,omitempty"` // arena: offset of the key argument inside the caller's buffer
 	Spare int    `json:"spare,omitempty"`
 	Fill  int    `json:"fill,omitempty"` // arena: what the caller's buffer holds around the key (0 pattern, 1 zeros, 2 zero right after the key, 3 0xff)
 	G     int    `json:"g,omitempty"`    // goroutine (C16)
@@ -62,7 +64,7 @@ func (t *Trace) Hash() uint64 {
 	h := sha256.New()
 	fmt.Fprintf(h, "%s|%s|%s|", t.Property, strings.Join(t.Kinds, ";"), t.Variant)
 	for _, op := range t.Ops {
-		fmt.Fprintf(h, "%d,%s,%x,%x,%d,%d,%s,%d,%d,%d,%d,%d;", op.T, op.Op, []byte(op.K), []byte(op.K2), op.V, op.N, op.M, op.Stop, op.Re+8*op.Btw+64*(op.In+2), op.Off, op.Spare+16*op.Fill, op.G)
+		fmt.Fprintf(h, "%d,%s,%x,%x,%d,%d,%s,%d,%d,%d,%d,%d;", op.T, op.Op, []byte(op.K), []byte(op.K2), op.V, op.N, op.M, op.Stop, op.Re+8*op.Btw+64*(op.In+2)+1024*op.Pull+(op.T2<<28), op.Off, op.Spare+16*op.Fill, op.G)
 	}
 	return binary.BigEndian.Uint64(h.Sum(nil)[:8])
 }
@@ -153,6 +155,9 @@ func showOp(kinds []Kind, op Op) string {
 		}
 		if op.In != 0 {
 			fmt.Fprintf(&sb, " nested=%d", op.In)
+		}
+		if op.Pull != 0 {
+			fmt.Fprintf(&sb, " pulled-with-t%d-schedule=%#x", op.T2, op.Pull)
 		}
 		sb.WriteString("]")
 	default:
